@@ -125,6 +125,15 @@ def run(tier):
     for cfg in cfgs:
         r = core.model_check("QuickShiftAlg.tla", "mc/QuickShiftAlg_%s.cfg" % cfg, coverage=(cfg != "cut4"), timeout=4 * 3600, heap="32g")
         rep.add_mc("QuickShiftAlg[%s]: code-shaped ascent/propagation => valid labelling, all lattice inputs x weight orders x cut-offs" % cfg, r)
+    # random exploration of larger instances: 7 points on a 5x5 lattice, staged generation, tlc -simulate
+    for cfg in ("simcut", "simgab"):
+        rs = core.run_tlc("QuickShiftAlg.tla", cfg="mc/QuickShiftAlg_%s.cfg" % cfg, workers=core.NCPU, simulate="num=%d" % (250 if quick else 30000), depth=40,
+                          extra=["-seed", str(core.seed() + 5)], timeout=600 if quick else 3600, budget_ok=True, heap="8g")
+        if rs["error"]:
+            raise core.Machinery("QuickShiftAlg simulation %s: %s\n%s" % (cfg, rs["error"], core.tlc_error_excerpt(rs, 30)))
+        rep.cov["parts"]["QuickShiftAlg simulation [%s], 7 points" % cfg] = {"states_checked": rs.get("sim_states", 0), "result": "no error"}
+        rep.cov["states"] += rs.get("sim_states", 0)
+        rep.cov["transitions"] += rs.get("sim_states", 0)
     rep.cov["exhaustive"] = True
     if not quick:
         r = core.model_check("QuickShiftAlg.tla", "mc/QuickShiftAlg_cut4_mut.cfg", coverage=False, timeout=3600, heap="16g")
